@@ -26,6 +26,8 @@ analysis procedures.
 
 .. moduleauthor:: Tom Dimiduk <tdimiduk@physics.harvard.edu>
 """
+import inspect
+
 import numpy as np
 import yaml
 
@@ -71,8 +73,16 @@ class HoloPyObject(Serializable):
         return dict(self._iteritems())
 
     def _iteritems(self):
+        defaults = {
+            name: par.default for name, par in
+            inspect.signature(self.__init__).parameters.items()}
         for var in self.__init__.__code__.co_varnames[1:]:
-            if getattr(self, var, None) is not None:
+            # a None that overrides a non-None default must be written out,
+            # or the default silently comes back when the object is reloaded
+            explicit_none = (
+                hasattr(self, var) and getattr(self, var) is None and
+                defaults.get(var, None) not in (None, inspect.Parameter.empty))
+            if getattr(self, var, None) is not None or explicit_none:
                 item = getattr(self, var)
                 if isinstance(item, np.ndarray) and item.ndim == 1:
                     item = list(item)
